@@ -62,3 +62,85 @@ def extra(chk, thorough):
     chk.oblige("monitor:non-blocking-does-not-wait-for-blocking-response", bad is None, json.dumps(bad) if bad else "")
     if bad:
         chk.violation(bad[1], {"case": bad}, key="nb-waits:" + bad[0])
+
+    # exclusion also holds ACROSS a reset + reconnect (the real reset() procedure): a blocking request that is in flight
+    # when the NCP is reset still excludes the blocking requests issued after the reconnect, until it ends
+    rbad = None
+    for first, later in (("b1", "b1b"), ("b2", "b1"), ("b1", "b2")):
+        evs = [("issue", 1, first)] + [("ack", -1)] * A.KINDS[first][2] + [("reset",), ("ack", -1), ("lost",),
+                                                                       ("tick", 1000), ("tick", 500)]
+        r = A.Runner()
+        try:
+            steps = []
+            real = []
+            for e in evs:
+                if e == ("ack", -1):
+                    e = ("ack", r.proto._pack_seq)
+                real.append(e)
+                steps.append(r.step(e))
+            reconnected = r.api._uart is not None and r.real_reset.done()
+            for e in [("issue", 2, later), ("ack", -1), ("ack", -1), ("tick", 1000), ("tick", 6000), ("ack", -1), ("ack", -1), ("tick", 6000)]:
+                if e == ("ack", -1):
+                    e = ("ack", r.proto._pack_seq)
+                real.append(e)
+                steps.append(r.step(e))
+        finally:
+            r.close()
+        chk.evaluations += 1
+        chk.count("reset_reconnect_scenarios")
+        m = None
+        if not reconnected:
+            m = "reset() did not reconnect in the scenario (harness assumption)"
+        else:
+            m = T.mon_blocking(real, [T.canon_step(st) for st in steps])
+        if m is not None and rbad is None:
+            rbad = (first, later, m, [" ".join(st) for st in steps])
+    chk.oblige("monitor:blocking-exclusion-across-reset-and-reconnect", rbad is None, json.dumps(rbad)[:400] if rbad else "")
+    if rbad:
+        chk.violation("across a reset + reconnect: %s" % rbad[2], {"case": rbad}, key="reset-exclusion:%s:%s" % rbad[:2])
+
+    # first-come first-served also between requests of the SAME command, and non-blocking requests of the same command do
+    # not wait for each other's response
+    fbad = None
+    scen = [
+        ("fcfs-same-command", [("issue", 1, "b1"), ("issue", 2, "b1"), ("issue", 3, "b1b"), ("ack", -1), ("rsp", "b1"), ("ack", -1),
+                               ("rsp", "b1"), ("ack", -1), ("rsp", "b1b"), ("tick", 6000)], [1, 2, 3]),
+        ("fcfs-timeout", [("issue", 1, "b1"), ("issue", 2, "b1"), ("issue", 3, "b1b"), ("ack", -1), ("tick", 6000), ("ack", -1),
+                          ("tick", 6000), ("ack", -1), ("tick", 6000)], [1, 2, 3]),
+        ("fcfs-cancel", [("issue", 1, "b1b"), ("issue", 2, "b1b"), ("issue", 3, "b1"), ("issue", 4, "b1b"), ("ack", -1), ("cancel", 1),
+                         ("ack", -1), ("rsp", "b1b"), ("ack", -1), ("rsp", "b1"), ("ack", -1), ("rsp", "b1b"), ("tick", 6000)], [1, 2, 3, 4]),
+    ]
+    for name, evs, want in scen:
+        r = A.Runner()
+        try:
+            steps, real = [], []
+            for e in evs:
+                if e == ("ack", -1):
+                    e = ("ack", r.proto._pack_seq)
+                real.append(e)
+                steps.append(T.canon_step(r.step(e)))
+        finally:
+            r.close()
+        chk.evaluations += 1
+        order = [rid for (_, rid, k) in T.writes(steps) if k == 0]
+        m = T.mon_blocking(real, steps)
+        if m is None and order != want:
+            m = "blocking requests were started in the order %s, they were issued in the order %s" % (order, want)
+        if m is not None and fbad is None:
+            fbad = (name, m, [" ".join(st) for st in steps])
+    for kind in ("nb1", "nb2"):
+        r = A.Runner()
+        try:
+            r.step(("issue", 1, kind))
+            for _ in range(A.KINDS[kind][2]):
+                r.step(("ack", r.proto._pack_seq))
+            o = r.step(("issue", 2, kind))      # same command; request 1 is waiting for its response, the link is free
+            chk.evaluations += 1
+            if not any(x.startswith("W:2.0") for x in o) and fbad is None:
+                fbad = ("nb-same-command:" + kind, "a non-blocking request was not transmitted although the link is free: it waited "
+                        "for the response of another request for the same command", o)
+        finally:
+            r.close()
+    chk.oblige("monitor:first-come-first-served(same command)+non-blocking-same-command", fbad is None, json.dumps(fbad)[:400] if fbad else "")
+    if fbad:
+        chk.violation(fbad[1], {"case": fbad}, key="fcfs:" + fbad[0])
